@@ -33,4 +33,172 @@
 //@item rodbus/src/client/message.rs | Command
 //@item rodbus/src/client/message.rs | Request
 //@item rodbus/src/client/message.rs | RequestDetails
+
+        // ---- the reference response decoder (C04) ----
+        pub enum SpecResponse {
+            Bits(crate::client::requests::read_bits::BitsValue),
+            Regs(crate::client::requests::read_registers::RegsValue),
+            Coil(Indexed<bool>), Reg(Indexed<u16>), Range(AddressRange),
+        }
+        pub enum SpecReply { Accept(SpecResponse), Exception(ExceptionCode), Bad }
+
+        impl RequestDetails {
+            pub open spec fn wf(&self) -> bool {
+                match self {
+                    RequestDetails::ReadCoils(x) => x.wf(), RequestDetails::ReadDiscreteInputs(x) => x.wf(),
+                    RequestDetails::ReadHoldingRegisters(x) => x.wf(), RequestDetails::ReadInputRegisters(x) => x.wf(),
+                    RequestDetails::WriteSingleCoil(_) => true, RequestDetails::WriteSingleRegister(_) => true,
+                    RequestDetails::WriteMultipleCoils(x) => x.request.wf(), RequestDetails::WriteMultipleRegisters(x) => x.request.wf(),
+                }
+            }
+            // [C03] the protocol quantity limits for writes (reads are limited when the request is built: ReadBitsRange / ReadRegistersRange)
+            pub open spec fn in_limits(&self) -> bool {
+                match self {
+                    RequestDetails::WriteMultipleCoils(x) => x.request.range.count <= 1968,
+                    RequestDetails::WriteMultipleRegisters(x) => x.request.range.count <= 123,
+                    _ => true,
+                }
+            }
+            pub open spec fn spec_function(&self) -> FunctionCode {
+                match self {
+                    RequestDetails::ReadCoils(_) => FunctionCode::ReadCoils, RequestDetails::ReadDiscreteInputs(_) => FunctionCode::ReadDiscreteInputs,
+                    RequestDetails::ReadHoldingRegisters(_) => FunctionCode::ReadHoldingRegisters, RequestDetails::ReadInputRegisters(_) => FunctionCode::ReadInputRegisters,
+                    RequestDetails::WriteSingleCoil(_) => FunctionCode::WriteSingleCoil, RequestDetails::WriteSingleRegister(_) => FunctionCode::WriteSingleRegister,
+                    RequestDetails::WriteMultipleCoils(_) => FunctionCode::WriteMultipleCoils, RequestDetails::WriteMultipleRegisters(_) => FunctionCode::WriteMultipleRegisters,
+                }
+            }
+            // the request-specific body check: exactly the length implied by the request; writes must echo the request
+            pub open spec fn spec_accept(&self, body: Seq<u8>) -> Option<SpecResponse> {
+                match self {
+                    RequestDetails::ReadCoils(x) | RequestDetails::ReadDiscreteInputs(x) =>
+                        if body.len() == 1 + (x.request.inner.count as int + 7) / 8 {
+                            Some(SpecResponse::Bits(crate::client::requests::read_bits::BitsValue { range: x.request.inner,
+                                values: Seq::new(x.request.inner.count as nat, |k: int| crate::types::spec_bit(body.subrange(1, body.len() as int), k)) }))
+                        } else { None },
+                    RequestDetails::ReadHoldingRegisters(x) | RequestDetails::ReadInputRegisters(x) =>
+                        if body.len() == 1 + 2 * x.request.inner.count as int {
+                            Some(SpecResponse::Regs(crate::client::requests::read_registers::RegsValue { range: x.request.inner,
+                                values: Seq::new(x.request.inner.count as nat, |k: int| crate::be16(body.subrange(1, body.len() as int), 2 * k) as u16) }))
+                        } else { None },
+                    RequestDetails::WriteSingleCoil(x) =>
+                        if body.len() == 4 && <Indexed<bool> as crate::common::traits::Parse>::spec_parse(body) == Some(x.request) { Some(SpecResponse::Coil(x.request)) } else { None },
+                    RequestDetails::WriteSingleRegister(x) =>
+                        if body.len() == 4 && <Indexed<u16> as crate::common::traits::Parse>::spec_parse(body) == Some(x.request) { Some(SpecResponse::Reg(x.request)) } else { None },
+                    RequestDetails::WriteMultipleCoils(x) =>
+                        if body.len() == 4 && <AddressRange as crate::common::traits::Parse>::spec_parse(body) == Some(x.request.range) { Some(SpecResponse::Range(x.request.range)) } else { None },
+                    RequestDetails::WriteMultipleRegisters(x) =>
+                        if body.len() == 4 && <AddressRange as crate::common::traits::Parse>::spec_parse(body) == Some(x.request.range) { Some(SpecResponse::Range(x.request.range)) } else { None },
+                }
+            }
+            // [C04] what a reply PDU means for this request
+            pub open spec fn spec_reply(&self, pdu: Seq<u8>) -> SpecReply {
+                let f = crate::common::function::spec_fc_value(self.spec_function());
+                if pdu.len() == 0 { SpecReply::Bad }
+                else if pdu[0] == f {
+                    match self.spec_accept(pdu.subrange(1, pdu.len() as int)) { Some(v) => SpecReply::Accept(v), None => SpecReply::Bad }
+                } else if pdu[0] == f | 0x80 {
+                    // a well-formed exception reply is exactly two bytes
+                    if pdu.len() == 2 { SpecReply::Exception(crate::exception::spec_exception_of(pdu[1])) } else { SpecReply::Bad }
+                } else { SpecReply::Bad }
+            }
+            // completion state of the request's promise, in the common vocabulary
+            pub open spec fn outcome(&self) -> Option<Result<SpecResponse, RequestError>> {
+                match self {
+                    RequestDetails::ReadCoils(x) | RequestDetails::ReadDiscreteInputs(x) => match x.promise.outcome() {
+                        None => None, Some(Ok(v)) => Some(Ok(SpecResponse::Bits(v))), Some(Err(e)) => Some(Err(e)) },
+                    RequestDetails::ReadHoldingRegisters(x) | RequestDetails::ReadInputRegisters(x) => match x.promise.outcome() {
+                        None => None, Some(Ok(v)) => Some(Ok(SpecResponse::Regs(v))), Some(Err(e)) => Some(Err(e)) },
+                    RequestDetails::WriteSingleCoil(x) => match x.promise.outcome() {
+                        None => None, Some(Ok(v)) => Some(Ok(SpecResponse::Coil(v))), Some(Err(e)) => Some(Err(e)) },
+                    RequestDetails::WriteSingleRegister(x) => match x.promise.outcome() {
+                        None => None, Some(Ok(v)) => Some(Ok(SpecResponse::Reg(v))), Some(Err(e)) => Some(Err(e)) },
+                    RequestDetails::WriteMultipleCoils(x) => match x.promise.outcome() {
+                        None => None, Some(Ok(v)) => Some(Ok(SpecResponse::Range(v))), Some(Err(e)) => Some(Err(e)) },
+                    RequestDetails::WriteMultipleRegisters(x) => match x.promise.outcome() {
+                        None => None, Some(Ok(v)) => Some(Ok(SpecResponse::Range(v))), Some(Err(e)) => Some(Err(e)) },
+                }
+            }
+            // same request (kind, addresses, values), whatever the promise state
+            pub open spec fn same_request(&self, o: &RequestDetails) -> bool {
+                match (self, o) {
+                    (RequestDetails::ReadCoils(a), RequestDetails::ReadCoils(b)) => a.request == b.request,
+                    (RequestDetails::ReadDiscreteInputs(a), RequestDetails::ReadDiscreteInputs(b)) => a.request == b.request,
+                    (RequestDetails::ReadHoldingRegisters(a), RequestDetails::ReadHoldingRegisters(b)) => a.request == b.request,
+                    (RequestDetails::ReadInputRegisters(a), RequestDetails::ReadInputRegisters(b)) => a.request == b.request,
+                    (RequestDetails::WriteSingleCoil(a), RequestDetails::WriteSingleCoil(b)) => a.request == b.request,
+                    (RequestDetails::WriteSingleRegister(a), RequestDetails::WriteSingleRegister(b)) => a.request == b.request,
+                    (RequestDetails::WriteMultipleCoils(a), RequestDetails::WriteMultipleCoils(b)) => a.request == b.request,
+                    (RequestDetails::WriteMultipleRegisters(a), RequestDetails::WriteMultipleRegisters(b)) => a.request == b.request,
+                    _ => false,
+                }
+            }
+
+//@fn rodbus/src/client/message.rs | RequestDetails::function | tags=C03,C04
+//@|    ensures r == self.spec_function(),
+
+// [C10] failing a request completes its promise with that error, unless it is already completed (first completion wins)
+//@fn rodbus/src/client/message.rs | RequestDetails::fail | tags=C10
+//@|    ensures final(self).same_request(old(self)),
+//@|        final(self).outcome() == (if old(self).outcome() is None { Some(Err::<SpecResponse, RequestError>(err)) } else { old(self).outcome() }),
+
+//@fn rodbus/src/client/message.rs | RequestDetails::handle_response | tags=C04,C10,C20
+//@|    requires cursor.wf(), old(self).wf(), function == old(self).spec_function(),
+//@|    ensures final(self).same_request(old(self)),
+//@|        r is Ok <==> old(self).spec_accept(cursor.rest()) is Some,
+//@|        r is Err ==> final(self).outcome() == old(self).outcome() && (r->Err_0 is BadResponse || r->Err_0 is BadRequest),
+//@|        r is Ok ==> final(self).outcome() == (if old(self).outcome() is None { Some(Ok::<SpecResponse, RequestError>(old(self).spec_accept(cursor.rest())->Some_0)) } else { old(self).outcome() }),
+        }
+
+        // [C03] the PDU body of each request kind: big-endian start/quantity or address/value; write-multiple adds byte count and data
+        impl Serialize for RequestDetails {
+            open spec fn ser_pre(&self) -> bool { self.wf() }
+            open spec fn ser_ok(&self, out: Seq<u8>) -> bool {
+                match self {
+                    RequestDetails::ReadCoils(x) | RequestDetails::ReadDiscreteInputs(x) => crate::common::serialize::is_be16_pair(out, x.request.inner.start, x.request.inner.count),
+                    RequestDetails::ReadHoldingRegisters(x) | RequestDetails::ReadInputRegisters(x) => crate::common::serialize::is_be16_pair(out, x.request.inner.start, x.request.inner.count),
+                    RequestDetails::WriteSingleCoil(x) => crate::common::serialize::is_be16_pair(out, x.request.index, if x.request.value { 0xFF00u16 } else { 0u16 }),
+                    RequestDetails::WriteSingleRegister(x) => crate::common::serialize::is_be16_pair(out, x.request.index, x.request.value),
+                    RequestDetails::WriteMultipleCoils(x) => x.request.ser_ok(out),
+                    RequestDetails::WriteMultipleRegisters(x) => x.request.ser_ok(out),
+                }
+            }
+            open spec fn ser_exc(&self, e: ExceptionCode) -> bool { false }
+            open spec fn ser_may_reject(&self) -> bool { true }
+//@fn rodbus/src/client/message.rs | Serialize for RequestDetails::serialize | tags=C03,C06
+        }
+        impl Loggable for RequestDetails {}
+
+        // ASSUMED queue invariant: a request is well-formed and not yet completed when it is taken from the command queue.
+        // (It is established where requests are built - Channel::read_* / write_* create a fresh promise and validated ranges - and
+        //  nothing can touch a request while it sits in the mpsc queue.)
+        pub broadcast axiom fn axiom_queue_inv(c: Command)
+            ensures #[trigger] crate::shims::tokio::sync::mpsc::queue_inv(c) ==> (c matches Command::Request(q) ==> q.details.wf() && q.details.outcome() is None);
+//@trusted queue invariant (axiom_queue_inv): requests taken from the command queue are well-formed and pending
+
+        impl Request {
+//@fn rodbus/src/client/message.rs | Request::new | tags=C03
+//@|    ensures r.id == id, r.timeout == timeout, r.details == details,
+
+// [C04] data only for the genuine matching reply; a well-formed exception reply yields exactly that exception; anything else an error
+// that is not an exception.  The promise is completed here only on success - errors are returned, to be failed in ONE place [C10]
+//@fn rodbus/src/client/message.rs | Request::handle_response | tags=C04,C07,C10,C20 | r10=0
+//@|    requires old(self).details.wf(),
+//@|    ensures final(self).id == old(self).id, final(self).timeout == old(self).timeout, final(self).details.same_request(&old(self).details),
+//@|        match old(self).details.spec_reply(payload@) {
+//@|            SpecReply::Accept(v) => r is Ok && final(self).details.outcome() == (if old(self).details.outcome() is None { Some(Ok::<SpecResponse, RequestError>(v)) } else { old(self).details.outcome() }),
+//@|            SpecReply::Exception(e) => r == Err::<(), RequestError>(RequestError::Exception(e)) && final(self).details.outcome() == old(self).details.outcome(),
+//@|            SpecReply::Bad => r is Err && !(r->Err_0 is Exception) && final(self).details.outcome() == old(self).details.outcome(),
+//@|        },
+//@|        r is Err ==> (r->Err_0 is Exception || r->Err_0 is BadResponse || r->Err_0 is BadRequest),
+
+//@fn rodbus/src/client/message.rs | Request::get_error_for | tags=C04,C07 | r10
+//@|    requires cursor.wf(), function != crate::common::function::spec_fc_value(expected_function),
+//@|    ensures
+//@|        (function == crate::common::function::spec_fc_value(expected_function) | 0x80 && cursor.rest().len() == 1)
+//@|            ==> r == RequestError::Exception(crate::exception::spec_exception_of(cursor.rest()[0])),
+//@|        !(function == crate::common::function::spec_fc_value(expected_function) | 0x80 && cursor.rest().len() == 1) ==> r is BadResponse,
+        }
+    }
+    pub mod task {
+//@include frag/client_task_full.tpl
     }
